@@ -5,6 +5,7 @@ import (
 	"encoding/hex"
 	"encoding/json"
 	"fmt"
+	"math/big"
 	"math/rand"
 	"os"
 	"os/exec"
@@ -28,6 +29,7 @@ type Perturb struct {
 type PerturbStats struct {
 	Restarts, Checks, ChecksPassed, Queries, Boundaries int
 	FreshChecks, FreshPassed, QueriesCompared           int
+	FreshToContract                                     int
 	QueryMismatch                                       []string
 	CheckPanics, QueryPanics                            []string
 	InfoMismatch                                        []string
@@ -132,6 +134,42 @@ func RerunPerturbed(h *History, scratch, label string, p Perturb) (*History, *Pe
 		t := &TxSpec{Type: 1, From: key.Addr, To: watch[rng.Intn(len(watch))], Amount: "1", GasPrice: sn.Params.GasPrice,
 			Gas: sn.Params.MinTrxGas + 1, Nonce: sn.Accts[0].Nonce + pendingNonce[string(key.Addr)],
 			Time: int64(1_800_000_000_000_000_000) + int64(st.Checks), SignerLabel: key.Name, Note: "noise-fresh"}
+		// contracts deployed so far: a plain transfer to one of them is routed to the EVM
+		var contracts [][]byte
+		for _, b := range h.Blocks {
+			if b.Height >= height {
+				break
+			}
+			for _, bt := range b.Txs {
+				if bt.Evm != nil && bt.Evm.OK && bt.Evm.Created != nil {
+					contracts = append(contracts, bt.Evm.Created)
+				}
+			}
+		}
+		if len(contracts) > 0 && rng.Intn(3) == 0 {
+			t.To = contracts[rng.Intn(len(contracts))]
+			t.Amount = fmt.Sprint(100 + rng.Intn(900))
+			t.Gas = uint64(100000 + rng.Intn(300000))
+			if rng.Intn(3) == 0 {
+				t.Type = 6
+				t.Data = word(big.NewInt(int64(rng.Intn(50))).Bytes())
+			}
+			t.Note = "noise-fresh-to-contract"
+			if bt, err := Build(t, h.Keys, h.Genesis.ChainID); err == nil {
+				code, pn := n.Check(bt.Bytes)
+				st.Checks++
+				st.FreshChecks++
+				if pn != "" {
+					st.CheckPanics = append(st.CheckPanics, pn)
+				} else if code == 0 {
+					st.ChecksPassed++
+					st.FreshPassed++
+					st.FreshToContract++
+					pendingNonce[string(key.Addr)]++
+				}
+			}
+			return
+		}
 		switch rng.Intn(4) {
 		case 0: // transfer
 		case 1: // stake to self or to a validator
